@@ -303,10 +303,14 @@ impl<'ctx> NaivePriceRepository<'ctx> {
                     continue;
                 }
             }
-            for (j, Entry(source, rates)) in match self.records.get(&prev) {
+            let mut nexts: Vec<_> = match self.records.get(&prev) {
                 None => continue,
-                Some(x) => x,
-            } {
+                Some(x) => x.iter().collect(),
+            };
+            // Visit in the commodity name order, so that the rate picked among
+            // equally good paths does not depend on the HashMap iteration order.
+            nexts.sort_unstable_by_key(|(j, _)| j.as_str());
+            for (j, Entry(source, rates)) in nexts {
                 let bound = rates.partition_point(|(record_date, _)| record_date <= &date);
                 log::debug!(
                     "found next commodity {} with date bound {}",
